@@ -22,6 +22,7 @@ type procKey struct {
 	pollutes bool // assigns through a method name / increments a method (process-level state)
 	methods  bool // calls methods
 	first    bool // run before anything else in every second process (what a process does first may seed a memo)
+	noFuzz   bool // run with the loop limit of fuzzing off (a loop of more than 10000 iterations)
 }
 
 func obsHash(parts ...[]byte) string {
@@ -197,6 +198,15 @@ func c10Keys(c *Ctx, n int) []procKey {
 		add(`{ print $ } END { print "end" }`, nil, in, false)
 	}
 	// results of operators used as assignment targets: every evaluation has a result of its own
+	// runs that differ in an option of the call (the fuzzing loop limit) or in what a method saw before: a long loop
+	// without the limit, numeric sorts next to mixed sorts - each first in every second process
+	add(`BEGIN { n = 0; while (n < 20000) { n++ } print n; for (i = 0; i < 15000; i++) { m = m + 1 } print m }`, nil, `[]`, false)
+	keys[len(keys)-1].noFuzz = true
+	keys[len(keys)-1].first = true
+	add(`BEGIN { print [10, 9, 100, 2.5, 0 - 1].sort(), [3, 20, 100].sort() }`, nil, `[]`, false)
+	keys[len(keys)-1].first = true
+	add(`BEGIN { print ["b", 1, "a10", 9].sort(), [true, "x", null].sort() }`, nil, `[]`, false)
+	add(`{ print $.sort() }`, nil, `[[10, 9, 100], ["b", 10, 9], [2.5, 10, 1]]`, false)
 	for _, p := range c10MethodNameReaders {
 		add(p, nil, `[{"n":0},{"n":1}]`, false)
 		keys[len(keys)-1].first = true
@@ -301,6 +311,9 @@ func checkC10(c *Ctx) {
 	occ := 0
 	mkJob := func(k procKey) Job {
 		occ++
+		if k.noFuzz {
+			return Job{Kind: "run", Prog: []byte(k.prog), Sels: k.sels, Files: []FileIn{{Name: "in.json", Data: []byte(k.input)}}, WantJS: true, Fuzzing: false, Budget: 5_000_000}
+		}
 		return Job{Kind: "run", Prog: []byte(k.prog), Sels: k.sels, Files: []FileIn{{Name: "in.json", Data: []byte(k.input), Chunks: chunkings[occ%len(chunkings)]}}, WantJS: true, Fuzzing: true, Budget: 200000}
 	}
 	// histories: two worker processes, each executing every key `reps` times in a random order
@@ -437,7 +450,13 @@ func checkC10(c *Ctx) {
 					os.WriteFile(outPath, []byte("{}"), 0o644)
 				}
 			}
-			br := c.RunBin(args, nil, sub, 10e9)
+			runArgs, stdin := args, []byte(nil)
+			if r%2 == 1 && !toFile {
+				// the same bytes reached through /dev/stdin given as a path (a file whose size is not its length)
+				runArgs = append(append([]string{}, args[:len(args)-1]...), "/dev/stdin")
+				stdin = []byte(k.input)
+			}
+			br := c.RunBin(runArgs, stdin, sub, 10e9)
 			if br.TimedOut {
 				return
 			}
